@@ -121,8 +121,8 @@ HUGE = 2 ** 70            # in units of 1/8; 2^67 as a float, exact
 
 # cases per pass: meta, stats, fake, perc, quant
 SIZES = {"quick": (80, 240, 240, 240, 120),
-         "thorough": (1500, 3000, 3000, 3000, 1500)}
-N_WARM = {"quick": 6, "thorough": 48}
+         "thorough": (1200, 3000, 3000, 3000, 1500)}
+N_WARM = {"quick": 6, "thorough": 32}
 
 HEADER = ("From Coq Require Import ZArith List.\nImport ListNotations.\n"
           "From Verif Require Import Model.C12.\n")
